@@ -238,10 +238,23 @@ def serde_schemas():
     return "\n".join(out)
 
 
+# ---------------------------------------------------------------- panic-capable sites (C07)
+def panic_sites_section():
+    """Inventory of the panic-capable syntactic sites of the current source + the key set of tools/panic_ledger.json
+    (scanner and ledger checks live in tools/panic_sites.py)."""
+    sys.path.insert(0, os.path.dirname(os.path.abspath(__file__)))
+    import panic_sites
+    try:
+        return panic_sites.coq_section(REPO)
+    except panic_sites.ScanError as e:
+        raise TranslatorError(f"panic sites: {e}")
+
+
 SECTIONS = [
     ("Headers", ["RIO.Headers"], header_action_table),
     ("Encodings", [], supported_encodings),
     ("Serde", ["RIO.Json"], serde_schemas),
+    ("PanicSites", [], panic_sites_section),
 ]
 
 
